@@ -1,7 +1,10 @@
 //! C06 — sharded aggregation through lcov equals direct aggregation.
 //! CLI: a random shard tree over 2-8 .info/.xml inputs (depth 1-3); every inner node is one grcov
 //! run writing an lcov report that the parent run reads; the root report must equal the report of
-//! the single direct run, with and without --branch.
+//! the single direct run, with and without --branch, and – second review, item 27 – with the
+//! path options `-s srcroot [-p srcroot]` applied AT EVERY STAGE (a source tree on disk that holds
+//! the C files of the inputs and two Java files, one reachable only through the partial-path
+//! lookup; lcov and JaCoCo inputs then describe the same Java file).
 use corrlib::pipe::*;
 use corrlib::*;
 use serde_json::json;
@@ -54,11 +57,13 @@ fn show_tree(t: &Shard) -> String {
 }
 
 /// runs the shard, returns the name of the file holding its contribution
+#[allow(clippy::too_many_arguments)]
 fn eval(
     t: &Shard,
     dir: &std::path::Path,
     inputs: &[Input],
     opts: &[String],
+    var: &Variant,
     counter: &mut usize,
     rng: &mut Rng,
     cli: &mut Vec<(String, String, serde_json::Value)>,
@@ -68,7 +73,7 @@ fn eval(
         Shard::Node(children) => {
             let mut args = vec![];
             for c in children {
-                args.push(eval(c, dir, inputs, opts, counter, rng, cli)?);
+                args.push(eval(c, dir, inputs, opts, var, counter, rng, cli)?);
             }
             rng.shuffle(&mut args);
             let cfg = RunCfg {
@@ -84,7 +89,7 @@ fn eval(
             if out.exit != Some(0) {
                 return Err(format!("shard run exited with {:?}: {}", out.exit, out.stderr.lines().last().unwrap_or("")));
             }
-            model_request(dir, &cfg.args, inputs, opts, &out.stdout, cli);
+            model_request(dir, &cfg.args, inputs, opts, var, &out.stdout, cli);
             *counter += 1;
             let name = format!("shard{}.info", counter);
             std::fs::write(dir.join(&name), &out.stdout).map_err(|e| e.to_string())?;
@@ -93,13 +98,23 @@ fn eval(
     }
 }
 
-/// the same run through the Lean model `Cli.run` (only when every argument is an lcov file: a leaf
+/// the path options of a case: none, or `-s <srcroot>` with or without an explicit `-p <srcroot>`
+/// (`main` sets the prefix to the source dir when `-p` is absent: the model gets it either way)
+#[derive(Clone, Debug)]
+struct Variant {
+    /// canonical source dir
+    src: Option<String>,
+    explicit_prefix: bool,
+}
+
+/// the same run through the Lean model `Cli.runJ` (only when every argument is an lcov file: a leaf
 /// may be a JaCoCo report)
 fn model_request(
     dir: &std::path::Path,
     args: &[String],
     inputs: &[Input],
     opts: &[String],
+    var: &Variant,
     stdout: &str,
     cli: &mut Vec<(String, String, serde_json::Value)>,
 ) {
@@ -109,23 +124,77 @@ fn model_request(
     let ins: Vec<Vec<u8>> = args.iter().map(|a| std::fs::read(dir.join(a)).unwrap_or_default()).collect();
     let ccfg = climodel::CliCfg {
         branch: opts.iter().any(|o| o == "--branch"),
-        source_dir: None,
-        prefix_dir: None,
+        source_dir: var.src.clone(),
+        prefix_dir: if var.explicit_prefix { var.src.clone() } else { None },
         ignore: vec![],
         keep: vec![],
         ignore_not_existing: false,
         filter: None,
     };
     let req = climodel::cli_request(&ccfg, &dir.canonicalize().unwrap(), &ins);
-    cli.push((req, stdout.to_string(), json!({"op": "cli.run", "opts": opts, "args": args,
+    cli.push((req, stdout.to_string(), json!({"op": "cli.runj", "opts": opts, "args": args,
         "inputs_hex": ins.iter().map(|b| hex(b)).collect::<Vec<_>>()})));
 }
 
+/// the source tree of the `-s` variant: every C file the inputs name, `pkg/B.java` where the
+/// inputs name it, and `A.java` only below `main/java/` (found through the partial-path lookup)
+fn make_srcroot(dir: &std::path::Path) -> String {
+    let src = dir.join("srcroot");
+    for f in ["src/a.c", "src/b.c", "lib/c.rs", "d.cpp", "pkg/B.java", "main/java/pkg/A.java"] {
+        let p = src.join(f);
+        std::fs::create_dir_all(p.parent().unwrap()).unwrap();
+        std::fs::write(&p, "int x;\n".repeat(20)).unwrap();
+    }
+    src.canonicalize().unwrap().to_str().unwrap().to_string()
+}
+
+/// some `SF:d.cpp` sections of the lcov inputs become `SF:pkg/A.java` / `SF:pkg/B.java`: the very
+/// keys the JaCoCo inputs produce (package `pkg`, source files `A.java`, `B.java`)
+fn java_sections(rng: &mut Rng, inputs: &mut [Input]) {
+    for inp in inputs.iter_mut() {
+        if inp.format != "Info" || !rng.chance(1, 2) {
+            continue;
+        }
+        let text = String::from_utf8_lossy(&inp.bytes).to_string();
+        if !text.contains("SF:d.cpp\n") {
+            continue;
+        }
+        let name = if rng.chance(1, 2) { "pkg/A.java" } else { "pkg/B.java" };
+        inp.bytes = text.replace("SF:d.cpp\n", &format!("SF:{}\n", name)).into_bytes();
+        inp.id = fnv_id("Info", &inp.bytes);
+        inp.parsed = grcov::parse_lcov(inp.bytes.clone(), true).expect("respelled tracefile is well formed");
+    }
+}
+
+/// OR of branch vectors (the longer tail kept)
+fn zip_or(a: &[bool], b: &[bool]) -> Vec<bool> {
+    (0..a.len().max(b.len())).map(|i| a.get(i).copied().unwrap_or(false) || b.get(i).copied().unwrap_or(false)).collect()
+}
+
+/// the branch data JaCoCo inputs `which` contribute, per reported path
+fn jacoco_branches(inputs: &[Input], which: &[usize]) -> std::collections::BTreeMap<String, std::collections::BTreeMap<u32, Vec<bool>>> {
+    let mut m: std::collections::BTreeMap<String, std::collections::BTreeMap<u32, Vec<bool>>> = Default::default();
+    for &i in which {
+        if inputs[i].format != "JacocoXml" {
+            continue;
+        }
+        for (k, c) in &inputs[i].parsed {
+            for (l, v) in &c.branches {
+                let e = m.entry(k.clone()).or_default().entry(*l).or_default();
+                *e = zip_or(e, v);
+            }
+        }
+    }
+    m.retain(|_, v| !v.is_empty());
+    m
+}
+
 pub fn run(rep: &mut Report) {
-    rep.rule = "2-8 overlapping .info/.xml inputs; a random shard tree of depth 1-3 (each inner node = one grcov \
-                run whose lcov report feeds its parent) against the single direct run, with and without --branch; \
-                non-trivial = the tree has at least two inner nodes and two inputs share a source file; \
-                distinct = distinct (inputs, tree, options)"
+    rep.rule = "2-8 overlapping .info/.xml inputs (lcov sections and JaCoCo reports naming the same Java files); a random \
+                shard tree of depth 1-3 (each inner node = one grcov run whose lcov report feeds its parent) against \
+                the single direct run, with and without --branch; one case in three with `-s srcroot` (half of those \
+                with an explicit `-p srcroot`) passed to EVERY run, the files on disk; non-trivial = the tree has at \
+                least two inner nodes and two inputs share a source file; distinct = distinct (inputs, tree, options)"
         .to_string();
     let mut rng = Rng::new(rep.seed ^ 0xC06);
     let n = rep.budget(90, 8);
@@ -134,12 +203,29 @@ pub fn run(rep: &mut Report) {
         let dir = rep.workdir.join(format!("case{}", c));
         let _ = std::fs::remove_dir_all(&dir);
         let k = rng.range(2, 8) as usize;
-        let inputs = gen_inputs(&mut rng, k);
+        let mut inputs = gen_inputs(&mut rng, k);
+        java_sections(&mut rng, &mut inputs);
         write_inputs(&dir, &inputs);
-        let branch = rng.chance(2, 3);
+        let with_src = rng.chance(1, 3);
+        // with a source dir the runs are made with --branch (the --branch-off finding is about the
+        // JaCoCo reader, not about paths: it is exercised without path options)
+        let branch = with_src || rng.chance(2, 3);
+        let var = if with_src {
+            Variant { src: Some(make_srcroot(&dir)), explicit_prefix: rng.chance(1, 2) }
+        } else {
+            Variant { src: None, explicit_prefix: false }
+        };
         let mut opts: Vec<String> = vec!["-t".into(), "lcov".into(), "--no-demangle".into()];
         if branch {
             opts.push("--branch".into());
+        }
+        if let Some(s) = &var.src {
+            opts.extend(["-s".to_string(), s.clone()]);
+            rep.count("opt.-s");
+            if var.explicit_prefix {
+                opts.extend(["-p".to_string(), s.clone()]);
+                rep.count("opt.-s.-p");
+            }
         }
         let idx: Vec<usize> = (0..k).collect();
         let tree = gen_tree(&mut rng, &idx, 0);
@@ -148,7 +234,16 @@ pub fn run(rep: &mut Report) {
             let mut seen = std::collections::HashSet::new();
             inputs.iter().flat_map(|i| i.parsed.iter().map(|p| p.0.clone())).any(|k| !seen.insert(k))
         };
-        rep.case(&format!("{} {} {}", c, show_tree(&tree), branch), inner >= 2 && shares);
+        let java_both = {
+            let of = |f: &str| -> std::collections::HashSet<String> {
+                inputs.iter().filter(|i| i.format == f).flat_map(|i| i.parsed.iter().map(|p| p.0.clone())).filter(|k| k.ends_with(".java")).collect()
+            };
+            of("Info").intersection(&of("JacocoXml")).next().is_some()
+        };
+        if java_both {
+            rep.count("inputs.java_file_in_lcov_and_jacoco");
+        }
+        rep.case(&format!("{} {} {} {:?}", c, show_tree(&tree), branch, var), inner >= 2 && shares);
         rep.count(if branch { "branch.on" } else { "branch.off" });
         rep.count(&format!("inner_nodes={}", inner.min(6)));
         let case = json!({"op": "shards", "tree": show_tree(&tree), "opts": opts,
@@ -168,9 +263,9 @@ pub fn run(rep: &mut Report) {
             continue;
         }
         let direct_args: Vec<String> = inputs.iter().map(|i| i.name.clone()).collect();
-        model_request(&dir, &direct_args, &inputs, &opts, &direct.stdout, &mut cli);
+        model_request(&dir, &direct_args, &inputs, &opts, &var, &direct.stdout, &mut cli);
         let mut counter = 0;
-        let root = match eval(&tree, &dir, &inputs, &opts, &mut counter, &mut rng, &mut cli) {
+        let root = match eval(&tree, &dir, &inputs, &opts, &var, &mut counter, &mut rng, &mut cli) {
             Ok(name) => std::fs::read_to_string(dir.join(name)).unwrap_or_default(),
             Err(e) => {
                 rep.fail("oracle", None, e, case);
@@ -183,25 +278,10 @@ pub fn run(rep: &mut Report) {
             rep.sample(json!({"tree": show_tree(&tree), "opts": opts, "direct_report_lines": direct.stdout.lines().count()}));
         }
         if d.is_err() || d != s {
-            // known finding: without --branch the JaCoCo reader still produces branch vectors, which
-            // the direct run reports but a re-imported lcov report (read without --branch) loses
             let finding = if !branch {
-                let strip = |text: &str| {
-                    decode_lcov_report(text).map(|mut m| {
-                        for c in m.values_mut() {
-                            c.branches.clear();
-                        }
-                        show_map(&m)
-                    })
-                };
-                let only_java_branches = decode_lcov_report(&direct.stdout)
-                    .map(|m| m.iter().all(|(k, c)| c.branches.is_empty() || k.ends_with(".java")))
-                    .unwrap_or(false);
-                if only_java_branches && strip(&direct.stdout) == strip(&root) {
-                    Some("C06-jacoco-branches-without-branch-flag")
-                } else {
-                    None
-                }
+                jacoco_branch_finding(&tree, &inputs, &direct.stdout, &root)
+            } else if var.src.is_some() {
+                partial_path_finding(&inputs, &direct.stdout, &root)
             } else {
                 None
             };
@@ -212,8 +292,9 @@ pub fn run(rep: &mut Report) {
                 json!({"case": case, "direct": d, "sharded": s}),
             );
         }
-        // independent cross-check of the direct run against the aggregate (ties C06 to C01's closed form)
-        if branch {
+        // independent cross-check of the direct run against the aggregate (ties C06 to C01's closed
+        // form); with a source dir the reported paths are not the keys of the inputs
+        if branch && var.src.is_none() {
             let refs: Vec<&Input> = inputs.iter().collect();
             let want = show_map(&aggregate(&refs));
             if d.as_ref().ok() != Some(&want) {
@@ -224,7 +305,92 @@ pub fn run(rep: &mut Report) {
     cli_tie(rep, &cli);
 }
 
-/// tie of the model of one run (`Cli.run`) to the real binary on every shard run and direct run
+/// Known finding C06-jacoco-branches-without-branch-flag, EXACT matcher (second review, item 27).
+/// Without --branch the lcov reader skips BRDA records but the JaCoCo reader still files branch
+/// vectors. So (no path options): the DIRECT report carries, per file, exactly the OR of the
+/// branch vectors of ALL JaCoCo inputs; the SHARDED report exactly the OR over the JaCoCo inputs
+/// that are direct children of the root run (the reports of deeper shards are lcov files, read
+/// without --branch) and no branch data anywhere else; lines and functions agree.
+fn jacoco_branch_finding(tree: &Shard, inputs: &[Input], direct: &str, sharded: &str) -> Option<&'static str> {
+    let (Ok(dm), Ok(sm)) = (decode_lcov_report(direct), decode_lcov_report(sharded)) else { return None };
+    let strip = |m: &std::collections::BTreeMap<String, grcov::CovResult>| {
+        let mut m = m.clone();
+        for c in m.values_mut() {
+            c.branches.clear();
+        }
+        show_map(&m)
+    };
+    if strip(&dm) != strip(&sm) {
+        return None;
+    }
+    let all: Vec<usize> = (0..inputs.len()).collect();
+    let root_children: Vec<usize> = match tree {
+        Shard::Leaf(i) => vec![*i],
+        Shard::Node(cs) => cs.iter().filter_map(|c| if let Shard::Leaf(i) = c { Some(*i) } else { None }).collect(),
+    };
+    let branches_of = |m: &std::collections::BTreeMap<String, grcov::CovResult>| {
+        let mut b: std::collections::BTreeMap<String, std::collections::BTreeMap<u32, Vec<bool>>> = Default::default();
+        for (k, c) in m {
+            if !c.branches.is_empty() {
+                b.insert(k.clone(), c.branches.clone());
+            }
+        }
+        b
+    };
+    if branches_of(&dm) == jacoco_branches(inputs, &all) && branches_of(&sm) == jacoco_branches(inputs, &root_children) {
+        Some("C06-jacoco-branches-without-branch-flag")
+    } else {
+        None
+    }
+}
+
+/// New finding C06-partial-path-resolved-shard-listed-twice (second review, item 26's consequence):
+/// with `-s`, a Java file that the inputs name by a PARTIAL path (`pkg/A.java`, on disk only as
+/// `main/java/pkg/A.java`) is reported by a shard under its full path; the upper run files that
+/// under its canonical key, while an input that still says `pkg/A.java` is filed under that
+/// spelling – two map entries, both reported as `main/java/pkg/A.java`: the sharded report lists
+/// the file TWICE, the direct report once. Matcher: the direct report decodes; every path listed
+/// more than once in the sharded report is a `.java`/`.kt` path that no input names as such; and
+/// the sharded report with its repeated sections aggregated IS the direct report.
+fn partial_path_finding(inputs: &[Input], direct: &str, sharded: &str) -> Option<&'static str> {
+    let dm = decode_lcov_report(direct).ok()?;
+    // sections of the sharded report, one by one
+    let mut secs: Vec<(String, grcov::CovResult)> = vec![];
+    let mut cur = String::new();
+    for line in sharded.lines() {
+        cur.push_str(line);
+        cur.push('\n');
+        if line == "end_of_record" {
+            let m = decode_lcov_report(&cur).ok()?;
+            let (k, c) = m.into_iter().next()?;
+            secs.push((k, c));
+            cur.clear();
+        }
+    }
+    let mut dup = false;
+    for (i, (k, _)) in secs.iter().enumerate() {
+        if secs[..i].iter().any(|x| x.0 == *k) {
+            dup = true;
+            let java = k.ends_with(".java") || k.ends_with(".kt");
+            let named = inputs.iter().any(|inp| inp.parsed.iter().any(|p| p.0 == *k));
+            if !java || named {
+                return None;
+            }
+        }
+    }
+    if !dup {
+        return None;
+    }
+    let pseudo: Vec<Input> = secs.into_iter().map(|(k, c)| Input { name: String::new(), format: "Info", bytes: vec![], id: String::new(), parsed: vec![(k, c)] }).collect();
+    let refs: Vec<&Input> = pseudo.iter().collect();
+    if show_map(&aggregate(&refs)) == show_map(&dm) {
+        Some("C06-partial-path-resolved-shard-listed-twice")
+    } else {
+        None
+    }
+}
+
+/// tie of the model of one run (`Cli.runJ`) to the real binary on every shard run and direct run
 fn cli_tie(rep: &mut Report, cli: &[(String, String, serde_json::Value)]) {
     let reqs: Vec<String> = cli.iter().map(|x| x.0.clone()).collect();
     let answers = run_model(&reqs, &rep.workdir, "cli");
@@ -237,7 +403,7 @@ fn cli_tie(rep: &mut Report, cli: &[(String, String, serde_json::Value)]) {
             cj["real"] = json!(real);
             cj["model"] = json!(answers[i]);
             rep.fail("disagreement", None,
-                format!("a grcov run differs from the Lean model Cli.run (theorems C06_cli_* no longer transfer): {}", what), cj);
+                format!("a grcov run differs from the Lean model Cli.runJ (theorems C06_cli_* no longer transfer): {}", what), cj);
         }
     }
 }
